@@ -1132,6 +1132,12 @@ def check_dotted_names(ck, R):
     for n in A.walk_body(fa.node):
         if isinstance(n, ast.ClassDef):
             cls = n
+    if cls is None:
+        # the visitor was hoisted out of the function: it is the module-level NodeVisitor that the function instantiates
+        called = {A.call_attr(c) for c in fa.calls()}
+        for c_ in ck.repo.module(CH).classes.values():
+            if c_.name in called and any(m_.startswith("visit_") for m_ in c_.methods):
+                cls = c_.node
     ck.need(cls is not None, "list_dotted_names: visitor class not found")
     methods = {s.name: s for s in cls.body if isinstance(s, ast.FunctionDef)}
     okn = "visit_Name" in methods and any(isinstance(c, ast.Call) and A.call_attr(c) == "add" and A.norm(c.args[0]) == "node.id" for c in ast.walk(methods["visit_Name"]))
